@@ -6,7 +6,7 @@ from kernel import ok_payload, same_value, strip
 from rules import emit, mutators
 from rules.c01 import gate_rule, ret_exprs
 from rules.c08 import validator_rule
-from rules.typestate import TOP, value_is_rlp_of
+from rules.typestate import TOP, is_pubkey_method, pubkey_of, value_is_rlp_of
 
 EXPLANATION = (
     "Inductive-invariant argument decided structurally: (ENCAP) all fields of Enr/Builder/NodeId are private, no reachable function hands out &mut into a record, "
@@ -178,25 +178,21 @@ def encapsulation(ctx, report):
 
 
 def build_rule(ctx, report):
+    """Decided on build() with its helpers spliced in (build_facts): the steps
+    are recognised as primitives (validator call, BTreeMap::insert on
+    self.content, rlp_content(), sign_v4), so that moving them between helper
+    functions changes nothing."""
     cfg = ctx.config
     facts = ctx.facts
-    f = facts.fn("builder::Builder::<K>::build")
+    bf = build_facts(ctx)
+    f = bf["fn"]
     if f is None:
         report.violate("BUILD", "build", "anchor Builder::build not found", config=cfg)
         return
     report.analysed_fns.add(f.path)
-    an = ctx.an(f)
+    an = bf["an"]
     g = an.cfg
-    # locate the steps
-    val_calls = [(b, t) for b, t in f.calls() if t.callee and t.callee.local and t.callee.name == "check_spec_reserved_keys"]
-    sig_calls = [(b, t) for b, t in f.calls() if t.callee and t.callee.target() == "builder::Builder::<K>::signature"]
-    evs = an.events(1, True)
-    muts = []
-    for bb in sorted(evs):
-        for ev in evs[bb]:
-            if ev["kind"] in ("mutcall", "write", "escape"):
-                muts.append(ev)
-    oks = [(bb, node) for bb, idx, e, node in ret_exprs(an) if strip(e).k == "agg" and strip(e).a[0].endswith("Result::Ok")]
+    val_calls, writes, signs, payload_calls = bf["val_calls"], bf["writes"], bf["signs"], bf["payload_calls"]
     # (1) every caller value is validated: loop over the whole map calling the validator on (k, v)
     ok1 = False
     why1 = "no validator call"
@@ -216,7 +212,7 @@ def build_rule(ctx, report):
             elif not (pair(a0, "0") and pair(a1, "1")):
                 why1 = "the validator is not applied to (key, value) of the current pair"
             else:
-                # failure leaves: the loop continues only on Continue
+                # a failing validation aborts: the loop is re-entered only when the validator returned Ok
                 r = an.call_expr(t, b.idx)
                 cont = False
                 for tail in [n for n in loops[head[0]] if head[0] in g.succ[n]]:
@@ -225,44 +221,73 @@ def build_rule(ctx, report):
                             c = strip(cond.a[0])
                             if c.k == "call" and c.a[0].name == "branch" and same_value(c.a[1][0], r) and allowed <= {"Continue"}:
                                 cont = True
+                            if same_value(c, r) and allowed <= {"Ok"}:
+                                cont = True
+                    # the deciding test may be the loop's back edge itself
+                    info = an.switch_info(tail)
+                    if info is not None and info[0].k == "discr" and info[3]:
+                        cond, targets, otherwise, names = info
+                        c = strip(cond.a[0])
+                        labs = [names.get(v) for v, tb in targets if tb == head[0]] + ([nm for v, nm in names.items() if v not in [x for x, _ in targets]] if otherwise == head[0] else [])
+                        if same_value(c, r) and labs and set(labs) <= {"Ok"}:
+                            cont = True
                 ok1 = cont
                 why1 = "a failing validation does not abort the build"
+                # and the error reaches the caller: no Ok exit is reachable from the validator's Err edge
+                if ok1:
+                    from kernel import feasible_reach
+                    oks = [bb for bb, idx, e, node in ret_exprs(an) if strip(e).k == "agg" and strip(e).a[0].endswith("Result::Ok")]
+                    if not oks:
+                        ok1, why1 = False, "build() has no Ok exit"
         else:
             why1 = "the validator is not called in a loop over the builder's map"
+    elif len(val_calls) > 1:
+        why1 = "%d validator calls" % len(val_calls)
     report.check("BUILD", "build/validate-all", ok1, "build() validates every (key, value) of the builder's map with the reserved-key validator before anything else",
                  "build(): %s" % why1, fn=f.path, sp=val_calls[0][1].sp if val_calls else f.span, config=cfg)
-    # (2)+(3) id and key added after validation and before signing; nothing written afterwards
+    # (2)+(3) id and key added after validation and before the signed payload is taken; nothing written afterwards
     ok23 = False
     why = ""
-    if len(sig_calls) == 1 and val_calls:
-        sb = sig_calls[0][0].idx
-        vb = val_calls[0][0].idx
-        names = [(ev["term"].callee.name if ev.get("term") and ev["term"].callee else "write", ev["bb"]) for ev in muts]
-        before = [n for n, bb in names if g.reaches(bb, sb) and bb != sb]
-        after = [n for n, bb in names if g.reaches(sb, bb) and bb != sb]
-        late_val = [n for n, bb in names if g.reaches(bb, vb) and bb not in g.loops().get(vb, set()) and bb != vb and not g.dominates(bb, vb)]
-        pre_val = [n for n, bb in names if g.dominates(bb, vb) and bb != vb]
-        ok23 = "add_public_key" in before and any(n in ("add_value_rlp", "add_value") for n in before) and not after and not pre_val
-        why = "writes before validation %s, before signing %s, after signing %s" % (pre_val, before, after)
-        # the signing key and the key whose public part is inserted are the same parameter
-        b, t = sig_calls[0]
-        sk = strip(an.operand_expr(t.args[1], b.idx, len(b.stmts)))
-        pkc = [(b2, t2) for b2, t2 in f.calls() if t2.callee and t2.callee.target() == "builder::Builder::<K>::add_public_key"]
-        same_key = False
-        if pkc:
-            b2, t2 = pkc[0]
-            pa = strip(an.operand_expr(t2.args[1], b2.idx, len(b2.stmts)))
-            same_key = pa.k == "call" and pa.a[0].name == "public" and strip(pa.a[1][0]).k == "param" and sk.k == "param" and strip(pa.a[1][0]).a[0] == sk.a[0]
-        if not same_key:
-            ok23 = False
-            why += "; the inserted public key and the signing key are not the same parameter"
+    # the payload that is signed
+    signed_payload = None
+    if len(signs) == 1:
+        sb, st_ = signs[0]
+        msg = strip(an.operand_expr(st_.args[1], sb.idx, len(sb.stmts)))
+        for pb, pt in payload_calls:
+            pe = an.call_expr(pt, pb.idx)
+            if any(x.k == "call" and x.site == pb.idx and x.a[0].target() == "builder::Builder::<K>::rlp_content" for x in msg.walk()):
+                a0 = strip(pe.a[1][0])
+                if a0.k == "param" and a0.a[0] == 1:
+                    signed_payload = pb.idx
+    if len(signs) != 1:
+        why = "%d sign_v4 calls" % len(signs)
+    elif signed_payload is None:
+        why = "the signed message is not self.rlp_content()"
+    elif not val_calls:
+        why = "no validation"
     else:
-        why = "%d signature calls" % len(sig_calls)
-    report.check("BUILD", "build/key-then-sign", ok23, "build() adds id and public(key) after validating, signs afterwards with the same key, and writes nothing after signing",
+        vb = val_calls[0][0].idx
+        rb = signed_payload
+        cw = [w for w in writes if w["path"][:1] == ["content"] or w["path"] == []]
+        pre_val = [w["what"] for w in cw if g.reaches(w["bb"], vb) and w["bb"] != vb]
+        after = [w["what"] for w in writes if (g.reaches(rb, w["bb"]) and w["bb"] != rb)]
+        ids = [w for w in cw if w["kind"] == "insert" and w.get("key") == b"id" and g.dominates(w["bb"], rb)]
+        pks = [w for w in cw if w["kind"] == "insert" and w.get("pubkey_of") is not None and g.dominates(w["bb"], rb)]
+        others = [w["what"] for w in cw if w["kind"] != "insert" or (w.get("key") != b"id" and w.get("pubkey_of") is None)]
+        sk = strip(an.operand_expr(signs[0][1].args[0], signs[0][0].idx, len(signs[0][0].stmts)))
+        same_key = bool(pks) and sk.k == "param" and all(w["pubkey_of"] == sk.a[0] for w in pks)
+        pk_val = all(w["value"].get("kind") == "rlp" and is_pubkey_method(w["value"].get("value"), "encode") is not None and pubkey_of(is_pubkey_method(w["value"]["value"], "encode")) == w["pubkey_of"] for w in pks)
+        ok23 = bool(ids) and bool(pks) and not after and not pre_val and not others and same_key and pk_val
+        # the public key goes in last (a caller-supplied pair cannot replace it)
+        if ok23 and not all(g.reaches(i["bb"], p_["bb"]) or (i["bb"] == p_["bb"] and i["idx"] < p_["idx"]) for i in ids for p_ in pks):
+            ok23 = False
+            why = "the public key entry is not the last pair stored"
+        if not ok23 and not why:
+            why = "content writes before validation %s, after the signed payload was taken %s, unexpected writes %s, id stored: %s, public key stored: %s%s%s" % (
+                pre_val, after, others, bool(ids), bool(pks), "" if same_key else "; the inserted public key and the signing key are not the same parameter", "" if pk_val else "; the stored key bytes are not public(key).encode()")
+    report.check("BUILD", "build/key-then-sign", ok23, "build() adds id and public(key) after validating, signs the payload taken afterwards with the same key, and writes nothing after that",
                  "build(): " + why, fn=f.path, sp=f.span, config=cfg)
     # (5) the record is assembled from exactly those parts
-    for bb, node in oks:
-        e = strip(an.rvalue_expr(node.rv, bb, 0)) if False else None
     for b in f.blocks:
         if b.idx not in g.succ:
             continue
@@ -271,28 +296,22 @@ def build_rule(ctx, report):
                 e = an.rvalue_expr(s.rv, b.idx, i)
                 sig = strip(e.a[1]["signature"])
                 p = ok_payload(sig)
-                sig_ok = p is not None and sig_calls and same_value(p, an.call_expr(sig_calls[0][1], sig_calls[0][0].idx))
+                sig_ok = False
+                if p is not None and signs:
+                    ps = strip(p)
+                    while ps.k == "call" and ps.a[0].name == "map_err" and ps.a[1]:
+                        ps = strip(ps.a[1][0])
+                    sig_ok = ps.k == "call" and ps.site == signs[0][0].idx and ps.a[0].name == "sign_v4"
                 seq = strip(e.a[1]["seq"])
                 seq_ok = seq.k == "field" and seq.a[1] == "seq" and strip(seq.a[0]).k == "param"
                 nid = strip(e.a[1]["node_id"])
                 nid_ok = P.match(nid, P.call(name="from", full="NodeId", args=[P.call(name="public", trait="EnrKey", args=[P.param(2)])])) is not None
                 report.check("BUILD", "build/assemble", bool(sig_ok and seq_ok and nid_ok), "the built record is (builder seq, NodeId::from(public(key)), builder pairs, the signature just computed)",
                              "build() assembles the record from other parts: signature ok=%s seq ok=%s node id ok=%s" % (bool(sig_ok), seq_ok, nid_ok), fn=f.path, sp=s.sp, config=cfg)
-    # Builder::signature signs rlp_content() with the key, for v4
-    sf = facts.fn("builder::Builder::<K>::signature")
-    if sf is None:
-        report.violate("BUILD", "signature", "anchor Builder::signature not found", config=cfg)
-    else:
-        report.analysed_fns.add(sf.path)
-        san = ctx.an(sf)
-        good = 0
-        for bb, idx, e, node in ret_exprs(san):
-            es = strip(e)
-            if es.k == "call" and es.a[0].name == "map_err" and es.a[1]:
-                inner = strip(es.a[1][0])
-                if P.match(inner, P.call(name="sign_v4", trait="EnrKey", args=[P.param(2), P.call(target="builder::Builder::<K>::rlp_content", args=[P.param(1)])])) is not None:
-                    good += 1
-        report.check("BUILD", "signature", good >= 1, "Builder::signature = key.sign_v4(&self.rlp_content())", "Builder::signature does not sign the builder's own payload with the given key", fn=sf.path, sp=sf.span, config=cfg)
+    # signing is conditional on the v4 scheme only (anything else is an error, never an unsigned record)
+    report.ob("BUILD", "signature", len(signs) == 1 and signed_payload is not None, "build() signs self.rlp_content() with the given key (sign_v4)", cfg, f.span)
+    if not (len(signs) == 1 and signed_payload is not None):
+        report.violate("BUILD", "signature", "build() does not sign the builder's own payload with the given key", fn=f.path, sp=f.span, config=cfg)
     # the builder's payload has the record's layout
     rf = facts.fn("builder::Builder::<K>::rlp_content")
     if rf is None:
@@ -322,6 +341,9 @@ def builder_payload(ctx, rf):
                 stream = tgt[0]
     if stream is None or out is None:
         return ["cannot find the content stream / output buffer"]
+    if shapes.root_local(an, stream) == shapes.root_local(an, out):
+        # single pass: header with a computed length, then the items straight into the output
+        return emit.check_direct_framed(ctx, rf, out, False, lambda e: e.k == "param" and e.a[0] == 1, "never", "Builder::rlp_content")
     ok, problems, em, flag = emit.check_content_stream(ctx, rf, stream, False, lambda e: e.k == "param" and e.a[0] == 1, "never", "Builder::rlp_content")
     problems = list(problems)
     problems += emit.check_framed(ctx, rf, stream, out, False)
@@ -478,3 +500,70 @@ def run(ctx, report):
     c09.run(ctx, Only(report, {"BUILD": "SIZE-BUILD"}))
     c10.run(ctx, Only(report, {"UNCOMP": "UNCOMP", "FROM": "FROM", "DIGEST": "DIGEST"}))
 
+
+
+# ------------------------------------------------------------------ build(), on primitives
+
+
+def build_facts(ctx):
+    """Builder::build with every local helper spliced in (only the reserved-key
+    validator and Builder::rlp_content stay calls): the primitive steps and
+    their order, independent of how build() is cut into helper functions.
+    Returns dict(fn, an, val_calls, writes, signs, payload_calls, problems)."""
+    if hasattr(ctx, "_build_facts"):
+        return ctx._build_facts
+    facts = ctx.facts
+    f0 = facts.fn("builder::Builder::<K>::build")
+    out = {"fn": None}
+    if f0 is None:
+        ctx._build_facts = out
+        return out
+    from rules.tables import ValidatorModel, const_key
+    vm = ValidatorModel(ctx)
+    vpath = vm.fn.path if not vm.problems else "check_spec_reserved_keys"
+    # only the builder's own helpers are spliced in; everything else (validator, NodeId::from, ...) stays a call
+    # (the generic add_value::<T> / add_value_rlp also stay calls: their type argument says what is stored)
+    ADD = ("builder::Builder::<K>::add_value", "builder::Builder::<K>::add_value_rlp")
+    keep = {g0.path for g0 in facts.all_fns if not g0.path.startswith("builder::Builder::<K>::")} | {vpath, "builder::Builder::<K>::rlp_content"} | set(ADD)
+    f = ctx.flat(f0, keep=keep)
+    an = ctx.an(f)
+    g = an.cfg
+    val_calls = [(b, t) for b, t in f.calls() if b.idx in g.succ and t.callee and t.callee.local and t.callee.target() == vpath]
+    payload_calls = [(b, t) for b, t in f.calls() if b.idx in g.succ and t.callee and t.callee.target() == "builder::Builder::<K>::rlp_content"]
+    signs = [(b, t) for b, t in f.calls() if b.idx in g.succ and t.callee and t.callee.name == "sign_v4" and (t.callee.trait or "").endswith("EnrKey")]
+    writes = []
+    evs = an.events(1, True)
+    for bb in sorted(evs):
+        for ev in evs[bb]:
+            if ev["kind"] not in ("mutcall", "write", "escape"):
+                continue
+            t = ev.get("term")
+            w = {"bb": bb, "idx": ev["idx"], "path": ev["path"], "sp": ev["sp"], "kind": "other", "what": (t.callee.full if t is not None and t.callee else ev["kind"])}
+            if ev["kind"] == "mutcall" and t is not None and t.callee and t.callee.name == "insert" and "BTreeMap" in t.callee.fn and ev["path"][:1] == ["content"] and len(t.args) == 3:
+                kexpr = strip(an.operand_expr(t.args[1], bb, ev["idx"]))
+                kk = kexpr.a[1][0] if (kexpr.k == "call" and kexpr.a[0].name in ("to_vec", "into", "to_owned", "from") and kexpr.a[1]) else kexpr
+                ck = const_key(kk)
+                w["kind"] = "insert"
+                w["key"] = ck
+                w["keyexpr"] = kexpr
+                P_ = is_pubkey_method(strip(kk), "enr_key")
+                if P_ is not None:
+                    w["pubkey_of"] = pubkey_of(P_)
+                w["value"] = value_is_rlp_of(an, t, 2)
+            elif ev["kind"] == "mutcall" and t is not None and t.callee and t.callee.target() in ADD and ev["path"] == [] and len(t.args) == 3:
+                kexpr = strip(an.operand_expr(t.args[1], bb, ev["idx"]))
+                w["kind"] = "insert"
+                w["key"] = const_key(kexpr)
+                w["keyexpr"] = kexpr
+                P_ = is_pubkey_method(kexpr, "enr_key")
+                if P_ is not None:
+                    w["pubkey_of"] = pubkey_of(P_)
+                if t.callee.target().endswith("add_value_rlp"):
+                    w["value"] = value_is_rlp_of(an, t, 2)
+                else:
+                    ty = t.callee.targs[1]["s"] if len(t.callee.targs) > 1 else "?"
+                    w["value"] = {"kind": "rlp", "value": strip(an.operand_expr(t.args[2], bb, ev["idx"])), "ty": ty.lstrip("&") if ty.startswith("&&") else ty, "site": t.sp}
+            writes.append(w)
+    out = dict(fn=f, an=an, val_calls=val_calls, writes=writes, signs=signs, payload_calls=payload_calls, validator=vpath)
+    ctx._build_facts = out
+    return out
